@@ -14,7 +14,7 @@ echo "date: $(date -u)"
 (cd "$w/patched" && git init -q . 2>/dev/null; git apply "$d/patch.diff") && echo "patch: applies" || { echo "patch: DOES NOT APPLY"; }
 (cd "$w/pristine" && PYTHONPATH="$w/pristine" timeout 300 /venv/bin/python "$d/demo.py" >/dev/null 2>&1); echo "demo_pristine_exit: $?"
 (cd "$w/patched" && PYTHONPATH="$w/patched" timeout 300 /venv/bin/python "$d/demo.py" >/dev/null 2>&1); echo "demo_patched_exit: $?"
-(cd "$w/patched" && flock /tmp/rpyc_tests.lock env PYTHONPATH="$w/patched" timeout 1200 /venv/bin/python -m pytest -q -p no:cacheprovider --timeout=900 --continue-on-collection-errors tests --junitxml="$w/j.xml" >/dev/null 2>&1)
+(cd "$w/patched" && flock /tmp/rpyc_tests.lock env PYTHONPATH="$w/patched" timeout 1200 /venv/bin/python -m pytest -q -p no:cacheprovider --timeout=900 --continue-on-collection-errors --ignore=tests/test_gdb.py tests --junitxml="$w/j.xml" >/dev/null 2>&1)
 /venv/bin/python - "$w/j.xml" <<'PY'
 import sys, json, xml.etree.ElementTree as ET
 base=json.load(open('/root/.vp/BASELINE.json'))['stable_pass']
